@@ -77,3 +77,6 @@ def witness_search(tier, seed):
                 if (ta.bpms, ta.stops, ta.delays, ta.warps, ta.offset) != (tb.bpms, tb.stops, tb.delays, tb.warps, tb.offset):
                     return dict(input=text, detail="timing data differs")
     return None
+
+from pyvc.xcheck import OrderedDictProbe   # noqa: E402
+THOROUGH_BOUNDED = [OrderedDictProbe()]
